@@ -54,6 +54,88 @@ pub fn literal_for(p: &Val) -> Option<String> {
 
 const SWEEP_FORMS: [&str; 14] = ["@", "(@)", "+@", "1/@", "@*@", "@-@", "-@", "0-@", "abs(@)", "sqrt(@)", "@^2", "min(@,1)", "@/@", "1+@*2"];
 
+/// the fixed forms plus `L op @`, `@ op L` for every infix operator and `f(@)`, `f(L,@)`, `f(@,L)` for every function:
+/// the placeholder directly behind and in front of every token that could special-case its neighbour
+fn sweep_forms(ev: Ev) -> &'static Vec<String> {
+    static CELL: std::sync::OnceLock<Vec<Vec<String>>> = std::sync::OnceLock::new();
+    let all = CELL.get_or_init(|| {
+        Ev::ALL
+            .iter()
+            .map(|ev| {
+                let mut v: Vec<String> = SWEEP_FORMS.iter().map(|s| s.to_string()).collect();
+                let ls: Vec<&str> = match ev {
+                    Ev::I64 => vec!["2", "3", "10", "(0-3)"],
+                    Ev::Cpx => vec!["2", "3", "0.5", "(1+2i)"],
+                    _ => vec!["2", "3", "10", "7.5", "(0-3)"],
+                };
+                for op in crate::vocab::infix(*ev) {
+                    for l in &ls {
+                        v.push(format!("{}{}@", l, op));
+                        v.push(format!("@{}{}", op, l));
+                        v.push(format!("-@{}{}", op, l));
+                        v.push(format!("{}{}-@", l, op));
+                    }
+                }
+                for f in crate::vocab::funcs(*ev) {
+                    if f.canon == "ilog" {
+                        continue;
+                    }
+                    match f.arity {
+                        crate::vocab::Arity::One => v.push(format!("{}(@)", f.name)),
+                        crate::vocab::Arity::Two => {
+                            for l in ls.iter().take(3) {
+                                v.push(format!("{}({},@)", f.name, l));
+                                v.push(format!("{}(@,{})", f.name, l));
+                            }
+                        }
+                        _ => {
+                            v.push(format!("{}(@)", f.name));
+                            v.push(format!("{}(2,@,3)", f.name));
+                        }
+                    }
+                }
+                if crate::vocab::has_fact(*ev) {
+                    v.extend(["@!", "-@!", "2^@!", "(@)!"].iter().map(|s| s.to_string()));
+                }
+                v.extend(["@²", "-@²", "2^@²", "@³"].iter().map(|s| s.to_string()));
+                if crate::vocab::has_deg(*ev) {
+                    v.extend(["@°", "-@°", "@rad"].iter().map(|s| s.to_string()));
+                }
+                v
+            })
+            .collect()
+    });
+    &all[Ev::ALL.iter().position(|e| *e == ev).unwrap()]
+}
+
+/// the boundary pool plus moderate values in every representation (exponents and counts that keep results in range)
+fn sweep_pool(ev: Ev) -> Vec<Val> {
+    let mut v = ph_pool(ev);
+    let extra = [2.0, 3.0, 10.0, 33.0, 39.0, 40.0, 62.0, 63.0, 64.0, 0.5, 1.5, -3.0, -39.0];
+    for x in extra {
+        match ev {
+            Ev::F64 => v.push(Val::F(x)),
+            Ev::I64 => {
+                if x.fract() == 0.0 {
+                    v.push(Val::I(x as i64))
+                }
+            }
+            Ev::Dec => {
+                v.push(Val::D(dec(&format!("{}", x))));
+                v.push(Val::D(dec(&format!("{:.2}", x))));
+            }
+            Ev::Cpx => v.push(Val::C(x, 0.0)),
+            Ev::Num => {
+                v.push(Val::NF(x));
+                if x.fract() == 0.0 {
+                    v.push(Val::NI(x as i64));
+                }
+            }
+        }
+    }
+    v
+}
+
 pub fn profile(ev: Ev) -> Profile {
     let mut p = Profile::full(ev);
     p.max_depth = 4;
@@ -113,11 +195,11 @@ impl Prop for C14Prop {
         "C14"
     }
     fn rule(&self) -> String {
-        "Cases are (evaluator, expression E with 0..n occurrences of @, placeholder p from the boundary pool incl. NaN payloads, +-inf, -0.0, i64 extremes, Decimal values of distinct scales, Integer vs Float). Sub-checks: sweep (a fixed list of 14 forms, each evaluated consecutively on one thread with every pool placeholder in both orders, every answer compared with the literal-substituted form); identity (@, (@), +@ return p identically: to_bits incl. NaN payload / variant / value+scale+sign) for every pool value (exhaustive); substitution (E evaluated with p equals E with every @ replaced by a bracketed literal expression that was first verified to evaluate to exactly p, evaluated with an unrelated placeholder); independence (E without @ gives the same outcome for every placeholder); reference evaluation with @ bound (exact sub-languages); twin re-evaluation (the same text immediately re-evaluated with a placeholder that compares equal or adjacent - other sign of zero, other Decimal scale, other Number variant, neighbouring double - and then with the original again); keyed-pairs (two consecutive calls (t1,p1),(t2,p2) where p2's bits are derived from p1's bits and the standard-library or FNV hashes of t1 and t2 by xor/add/sub, the coincidence a result cache keyed by hash(text) combined with the placeholder bits would need; the second answer must equal the same call made after an unrelated one). non-trivial = >=1 @ under >=1 operator and a placeholder different from the type's default; distinct by (evaluator,E,p).".into()
+        "Cases are (evaluator, expression E with 0..n occurrences of @, placeholder p from the boundary pool incl. NaN payloads, +-inf, -0.0, i64 extremes, Decimal values of distinct scales, Integer vs Float). Sub-checks: sweep (14 fixed forms plus L op @, @ op L, -@ op L for every infix operator, f(@), f(L,@), f(@,L) for every function, @ under every postfix form; the pool is extended by moderate values 2…64 in every representation; each form evaluated consecutively on one thread with every pool placeholder in both orders, every answer compared with the literal-substituted form); identity (@, (@), +@ return p identically: to_bits incl. NaN payload / variant / value+scale+sign) for every pool value (exhaustive); substitution (E evaluated with p equals E with every @ replaced by a bracketed literal expression that was first verified to evaluate to exactly p, evaluated with an unrelated placeholder); independence (E without @ gives the same outcome for every placeholder); reference evaluation with @ bound (exact sub-languages); twin re-evaluation (the same text immediately re-evaluated with a placeholder that compares equal or adjacent - other sign of zero, other Decimal scale, other Number variant, neighbouring double - and then with the original again); keyed-pairs (two consecutive calls (t1,p1),(t2,p2) where p2's bits are derived from p1's bits and the standard-library or FNV hashes of t1 and t2 by xor/add/sub, the coincidence a result cache keyed by hash(text) combined with the placeholder bits would need; the second answer must equal the same call made after an unrelated one). non-trivial = >=1 @ under >=1 operator and a placeholder different from the type's default; distinct by (evaluator,E,p).".into()
     }
     fn subs(&self, tier: Tier) -> Vec<Sub> {
         let ident: u64 = Ev::ALL.iter().map(|ev| ph_pool(*ev).len() as u64 * 4).sum();
-        let sweep: u64 = 5 * SWEEP_FORMS.len() as u64;
+        let sweep: u64 = Ev::ALL.iter().map(|ev| sweep_forms(*ev).len() as u64).sum();
         vec![
             Sub { name: "identity", kind: SubKind::Enum { count: ident } },
             Sub { name: "sweep", kind: SubKind::Enum { count: sweep } },
@@ -128,9 +210,14 @@ impl Prop for C14Prop {
     }
     fn gen_enum(&self, sub: &str, mut idx: u64, _tier: Tier) -> Option<Case> {
         if sub == "sweep" {
-            let ev = Ev::ALL[(idx % 5) as usize];
-            let form = SWEEP_FORMS[(idx / 5) as usize % SWEEP_FORMS.len()];
-            return Some(Case::new(ev, form.to_string(), Val::default_for(ev)));
+            for ev in Ev::ALL {
+                let f = sweep_forms(ev);
+                if (idx as usize) < f.len() {
+                    return Some(Case::new(ev, f[idx as usize].clone(), Val::default_for(ev)));
+                }
+                idx -= f.len() as u64;
+            }
+            return None;
         }
         for ev in Ev::ALL {
             let pool = ph_pool(ev);
@@ -187,7 +274,7 @@ impl Prop for C14Prop {
                 if accept(ev, &case.input).is_none() {
                     return Ok(());
                 }
-                let pool = ph_pool(ev);
+                let pool = sweep_pool(ev);
                 let order: Vec<usize> = (0..pool.len()).chain((0..pool.len()).rev()).collect();
                 for i in order {
                     let p = &pool[i];
